@@ -135,5 +135,15 @@ theorem cylinder_normals_outward {sides : Nat} {r H : ℝ} (hr : 0 < r) (hH : 0 
 example : OutwardAt (cylinderPos (1 : ℝ) 2 3) O3 (cylinderTris 3 false false) :=
   cylinder_outward (by norm_num) (by norm_num) (by decide)
 
+/-- **hemisphere faces point outward**, all sizes, every radius `> 0`: every dome triangle and every cap triangle has
+    positive signed volume against the point `(0, r/2, 0)` on the axis (dome: `r²·sin ψ·sin(2π/cols)·(r·sin δ −
+    (r/2)(sin ψ₁ − sin ψ₂)) / 6`, cap: `r³·sin(2π/cols)/12`). -/
+theorem hemisphere_outward {rows cols : Nat} {r : ℝ} (hr : 0 < r) (hR : 2 ≤ rows) (hC : 3 ≤ cols) :
+    OutwardAt (hemispherePos r rows cols) (hemiCtr r) (hemisphereTris rows cols) :=
+  hemisphere_outward_aux hr hR hC
+
+example : OutwardAt (hemispherePos (2 : ℝ) 2 3) (hemiCtr 2) (hemisphereTris 2 3) :=
+  hemisphere_outward (by norm_num) (by decide) (by decide)
+
 end C18
 end PolyVerif
